@@ -2,15 +2,18 @@
 
 (a) xh : ``_post_with_retry`` -> ``_request_with_retry`` (real bytecode; ``_compute_delay`` and
          ``_get_retry_after`` re-globalised to recording contract stubs, covered by (b) / OUTSIDE):
-         for every scripted fault sequence of length <= max_retries+1 <= 4 the number of requests,
-         the recorded sleeps and the terminal behaviour equal the reference table; a request k+1 is
-         only sent after a retryable outcome at k.
+         for every scripted fault sequence the property is judged as an *upper bound*: at most
+         max_retries+1 requests; a request k+1 only after a retryable outcome at k (retryable status,
+         or - connection-level retry on - connect error / timeout / disconnect before any response
+         byte; never another protocol error); the caller sees the last outcome; every wait is a value
+         of ``_compute_delay`` (range decided in (b)) or a number in [0, backoff_max].  Retrying less
+         than the current loop does is allowed.
 (b) fp : ``_compute_delay`` translated at run time from its live AST into IEEE-754 binary64 terms:
          0 <= delay <= backoff_max and delay is not NaN for all finite base,max >= 0, attempt 0..3,
          any double / None retry_after.  z3 and cvc5 must agree.
 (c) xh : ``HttpStreamSession.exchange`` / ``cancel`` (real methods, real pyarrow on concrete data) with
          a counting client whose answers are symbolic: exchange posts <= 1, or exactly 2 with the
-         first answer 413; cancel posts <= 1 and is idempotent.
+         first answer 413; cancel posts <= 1, also over two cancel() calls.
 """
 
 from __future__ import annotations
@@ -76,13 +79,13 @@ class _Token:
         return "0.00"
 
 
-def _stub_compute_delay(attempt, config, retry_after):  # type: ignore[no-untyped-def]
+def _stub_compute_delay(attempt, config, retry_after=None, *_a, **_k):  # type: ignore[no-untyped-def]
     t = _Token(attempt, config, retry_after)
     _REC["delays"].append(t)
     return t
 
 
-def _stub_get_retry_after(headers):  # type: ignore[no-untyped-def]
+def _stub_get_retry_after(headers, *_a, **_k):  # type: ignore[no-untyped-def]
     if not isinstance(headers, _Headers):
         raise HarnessModelError("_get_retry_after stub called with foreign headers")
     return headers.ra
@@ -92,12 +95,18 @@ class _Headers:
     def __init__(self, ra):  # type: ignore[no-untyped-def]
         self.ra = ra
 
+    def __getattr__(self, name: str):  # type: ignore[no-untyped-def]
+        raise HarnessModelError(f"C38 response-headers fake: .{name} is not modelled (read through _get_retry_after only)")
+
 
 class _Resp:
     def __init__(self, status_code, ra):  # type: ignore[no-untyped-def]
         self.status_code = status_code
         self.headers = _Headers(ra)
         self.content = b"body"
+
+    def __getattr__(self, name: str):  # type: ignore[no-untyped-def]
+        raise HarnessModelError(f"C38 response fake: .{name} is not modelled (status_code / headers / content)")
 
 
 class _Codes:
@@ -140,7 +149,13 @@ class _ScriptClient:
         i = self.sent
         self.sent += 1
         if i >= len(self.script):
-            raise HarnessModelError("more requests than scripted (bound exceeded)")
+            # a request beyond the script (the script is as long as max_retries+1 can be): answered 200 so that
+            # the loop ends; the *count* is what the condition judges (not a model error)
+            if i >= len(self.script) + 4:
+                raise HarnessModelError("runaway retry loop (more than 4 requests beyond max_retries+1)")
+            r = _Resp(200, None)
+            self.outcomes.append(r)
+            return r
         kind, status, ra = self.script[i]
         if kind == K_STATUS:
             r = _Resp(status, None if ra < 0 else ra)  # Retry-After absent / any int (decided lazily)
@@ -156,28 +171,44 @@ _rwr = reglobalize(rt._request_with_retry, _compute_delay=_stub_compute_delay, _
 _pwr = reglobalize(rt._post_with_retry, _request_with_retry=_rwr)
 
 
-def _retry_reference(script, max_retries: int, retry_conn: bool, codes: _Codes):  # type: ignore[no-untyped-def]
-    """Reference table: (requests, terminal) where terminal = ('ret'|'raise'|'transient', index)."""
-    k = 0
-    while True:
+def _retry_breach(script, n: int, max_retries: int, retry_conn: bool, codes, terminal: str, term_status):  # type: ignore[no-untyped-def]
+    """The property as an upper bound (None = holds, else what is breached) - NOT the loop's own algorithm:
+      * at most max_retries+1 requests;
+      * request k+1 only after a retryable outcome at k: a status in the configured set, or - with connection-level
+        retry on - a connect error, a timeout or a disconnect before any response byte; never after another
+        protocol error (bytes were flowing), never after a non-retryable status;
+      * the caller sees the last outcome: a transport fault is not swallowed, a response is not turned into a
+        transport exception, the returned / reported status is the last one received, HttpTransientError only
+        for a status of the retryable set.
+    Retrying *less* (time budget, giving up early, not replaying a POST after a timeout) is allowed.
+    ``terminal`` = 'ret' | 'transient' | 'raise'; ``term_status`` = status returned / carried by HttpTransientError."""
+    if n < 1:
+        return "no request sent"
+    if n > max_retries + 1:
+        return f"{n} requests > max_retries+1 = {max_retries + 1}"
+    for k in range(n - 1):
         kind, status, _ra = script[k]
-        if kind == K_STATUS:
-            retryable = status in codes
-            if not retryable:
-                return k + 1, "ret"
-            if k >= max_retries:
-                return k + 1, "transient"
-        else:
-            retryable = retry_conn and kind != K_PROTO
-            if not retryable or k >= max_retries:
-                return k + 1, "raise"
-        k += 1
+        ok = (status in codes) if kind == K_STATUS else (retry_conn and kind != K_PROTO)
+        if not ok:
+            return f"request {k + 2} sent after a non-retryable outcome at request {k + 1}"
+    kind, status, _ra = script[n - 1]
+    if kind == K_STATUS:
+        if terminal == "raise":
+            return "the last request was answered, yet a transport exception reached the caller"
+        if term_status != status:
+            return "the status handed to the caller is not the last one received"
+        if terminal == "transient" and not (status in codes):
+            return "HttpTransientError for a status outside the retryable set"
+    elif terminal != "raise":
+        return "the last request failed at transport level, yet no exception reached the caller"
+    return None
 
 
 def _replay_retry(args: dict) -> str | None:
     """Un-stubbed _post_with_retry (real _compute_delay/_get_retry_after, real frozenset) on the concrete script."""
     mr = args["max_retries"]
     script = [(args["k%d" % i], args["s%d" % i], None if args["ra%d" % i] < 0 else args["ra%d" % i]) for i in range(4)]
+    script = script + [(K_STATUS, 200, None)] * 4  # requests beyond the bound are answered 200 and counted
     codes = frozenset(_DEFAULT_CODES) | {args["extra"]}
     cfg = rt.HttpRetryConfig(max_retries=mr, backoff_base=0.5, backoff_max=2.0, retryable_status_codes=codes,
                              retry_on_connection_error=args["retry_conn"], respect_retry_after=args["respect_ra"])
@@ -187,37 +218,44 @@ def _replay_retry(args: dict) -> str | None:
     class C:
         def post(self, url, *, content, headers):  # type: ignore[no-untyped-def]
             i = len(sent)
-            kind, status, ra = script[i]
             sent.append(i)
+            if i >= len(script):
+                raise AssertionError("runaway retry loop")
+            kind, status, ra = script[i]
             if kind == K_STATUS:
                 return httpx2.Response(status, headers=({} if ra is None else {"Retry-After": str(ra)}), content=b"body")
             raise _make_fault(kind)
 
-    got = None
+    got, term_status = "raise", None
     try:
-        rt._post_with_retry(C(), "http://h/m", content=b"req", headers={"A": "b"}, config=cfg, _sleep=sleeps.append)  # type: ignore[arg-type]
-        got = "ret"
-    except rt.HttpTransientError:
-        got = "transient"
-    except (httpx2.TransportError,):
+        r = rt._post_with_retry(C(), "http://h/m", content=b"req", headers={"A": "b"}, config=cfg, _sleep=sleeps.append)  # type: ignore[arg-type]
+        got, term_status = "ret", getattr(r, "status_code", None)
+    except rt.HttpTransientError as e:
+        got, term_status = "transient", e.status_code
+    except Exception:  # noqa: BLE001  (whatever class reaches the caller: the property does not name it)
         got = "raise"
-    want_n, want_t = _retry_reference(script, mr, args["retry_conn"], _Codes(args["extra"]))
-    bad = []
-    if len(sent) != want_n:
-        bad.append(f"{len(sent)} requests sent, reference says {want_n}")
-    if len(sent) > mr + 1:
-        bad.append(f"{len(sent)} requests > max_retries+1 = {mr + 1}")
-    if got != want_t:
-        bad.append(f"terminal {got}, reference {want_t}")
-    if any((not (0 <= s <= cfg.backoff_max)) for s in sleeps):
-        bad.append(f"sleep outside [0, backoff_max]: {sleeps}")
-    return "; ".join(bad) + f" (script={script[:want_n]}, max_retries={mr})" if bad else None
+    n = len(sent)
+    bad = _retry_breach(script, min(n, len(script)), mr, args["retry_conn"], codes, got, term_status)
+    if bad is None:
+        off = [s for s in sleeps if not (isinstance(s, (int, float)) and 0 <= s <= cfg.backoff_max)]
+        if off:
+            bad = f"wait(s) outside [0, backoff_max={cfg.backoff_max}]: {off}"
+    return f"{bad} (outcomes={script[:max(1, min(n, 5))]}, max_retries={mr}, retry_on_connection_error={args['retry_conn']}, requests sent={n}, waits={sleeps})" if bad else None
+
+
+def _sig_retry(args: dict, conc) -> str:  # type: ignore[no-untyped-def]
+    r = _replay_retry(args) or ""
+    for key, sig in (("> max_retries+1", "more-than-max-retries"), ("non-retryable outcome", "retry-after-non-retryable"),
+                     ("outside [0, backoff_max", "wait-out-of-range")):
+        if key in r:
+            return "C38:retry-loop:" + sig
+    return "C38:retry-loop:terminal-not-last-outcome"
 
 
 @cond(q=60, t=300, stubs=["_compute_delay := recording token stub", "_get_retry_after := scripted value"],
       encoded=[rt._request_with_retry, rt._post_with_retry], bound="max_retries 0..%d, scripts <= %d attempts" % (_MAXR, _MAXR + 1),
-      replay=_replay_retry, signature=lambda a, c: "C38:retry-loop:differs-from-table")
-def retry_loop_matches_table(max_retries: int, retry_conn: bool, respect_ra: bool, extra: int,
+      replay=_replay_retry, signature=_sig_retry)
+def retry_loop_bounded_and_only_after_retryable(max_retries: int, retry_conn: bool, respect_ra: bool, extra: int,
                              k0: int, s0: int, ra0: int, k1: int, s1: int, ra1: int,
                              k2: int, s2: int, ra2: int, k3: int, s3: int, ra3: int) -> bool:
     """
@@ -233,43 +271,32 @@ def retry_loop_matches_table(max_retries: int, retry_conn: bool, respect_ra: boo
     client = _ScriptClient(script)
     _REC["delays"] = []
     sleeps: list = []
-    ret = None
-    exc: BaseException | None = None
+    terminal, term_status = "raise", None
     try:
         ret = _pwr(client, "http://h/m", content=b"req", headers={"A": "b"}, config=cfg, _sleep=sleeps.append)
+        terminal, term_status = "ret", ret.status_code
     except HarnessModelError:
-        return False  # a request beyond max_retries+1 (script exhausted) or an altered request
-    except Exception as e:  # noqa: BLE001
-        exc = e
-    want_n, want_t = _retry_reference(script, max_retries, retry_conn, codes)
+        raise  # altered request / runaway loop: outside the model (INCONCLUSIVE), not a verdict
+    except rt.HttpTransientError as e:
+        terminal, term_status = "transient", e.status_code
+    except Exception:  # noqa: BLE001  (the class reaching the caller is not named by the property)
+        terminal = "raise"
     n = client.sent
-    if n != want_n or n > max_retries + 1:
+    if n > len(script) or _retry_breach(script, n, max_retries, retry_conn, codes, terminal, term_status) is not None:
         return False
-    last = client.outcomes[n - 1]
-    if want_t == "ret":
-        if ret is not last or exc is not None:
-            return False
-    elif want_t == "raise":
-        if exc is not last:
-            return False
-    else:
-        if not isinstance(exc, rt.HttpTransientError):
-            return False
-        if exc.status_code != last.status_code:
-            return False
-        if not (exc.retry_after is None and last.headers.ra is None or exc.retry_after == last.headers.ra):
-            return False
-    # one sleep between consecutive requests, each the delay computed for that attempt from that outcome
-    delays = _REC["delays"]
-    if len(sleeps) != n - 1 or len(delays) != n - 1:
-        return False
-    for i in range(n - 1):
-        d = delays[i]
-        if sleeps[i] is not d or d.attempt != i or d.config is not cfg:
-            return False
-        o = client.outcomes[i]
-        want_ra = o.headers.ra if isinstance(o, _Resp) else None
-        if not (d.retry_after is None and want_ra is None or (want_ra is not None and d.retry_after == want_ra)):
+    # every wait is a value of _compute_delay (whose range [0, backoff_max] is decided by the fp task for attempt
+    # 0..3 and this backoff_max) or a plain number within the range; how many waits there are is not stated
+    for s in sleeps:
+        if isinstance(s, _Token):
+            c = s.config
+            if not (c is cfg or getattr(c, "backoff_max", None) == cfg.backoff_max):
+                return False
+            if not (isinstance(s.attempt, int) and 0 <= s.attempt <= 3):
+                return False
+        elif isinstance(s, (int, float)):
+            if not (0 <= s <= cfg.backoff_max):
+                return False
+        else:
             return False
     return True
 
@@ -281,13 +308,15 @@ def no_config_means_single_post(k0: int, s0: int) -> bool:
     post: _
     """
     client = _ScriptClient([(k0, s0, -1)])
+    # without a retry configuration: exactly the one request, and its outcome reaches the caller (a response is
+    # returned with its status, a transport fault is raised - as whatever class, wrapped or not)
     try:
         r = rt._post_with_retry(client, "http://h/m", content=b"req", headers={"A": "b"}, config=None)  # type: ignore[arg-type]
-        ok = r is client.outcomes[0]
+        ok = k0 == K_STATUS and r.status_code == s0
     except HarnessModelError:
-        return False
-    except Exception as e:  # noqa: BLE001
-        ok = e is client.outcomes[0]
+        raise
+    except Exception:  # noqa: BLE001
+        ok = k0 != K_STATUS
     return ok and client.sent == 1
 
 
@@ -789,10 +818,15 @@ class _CountingClient:
         self.other: list = []
 
     def post(self, url, *, content, headers):  # type: ignore[no-untyped-def]
+        if url != _URL:
+            raise HarnessModelError(f"POST to {url!r}: only the exchange URL is modelled")
         i = len(self.posts)
         self.posts.append(url)
         if i >= len(self.answers):
-            raise HarnessModelError("more posts than the bound models")
+            # beyond the symbolic answers: answered 200 and *counted* (the count is what is judged)
+            if i >= len(self.answers) + 8:
+                raise HarnessModelError("runaway resend loop")
+            return _SResp(200, _OK_BODY)
         boom, status, good = self.answers[i]
         if boom:
             raise httpx2.ConnectError("down")
@@ -829,17 +863,19 @@ def _retry_cfg(has_retry, mr):  # type: ignore[no-untyped-def]
 
 
 def _replay_exchange(args: dict) -> str | None:
-    client = _CountingClient([(args["boom0"], args["st0"], args["good0"]), (args["boom1"], args["st1"], args["good1"])] + [(False, 200, True)] * 4)
+    client = _CountingClient([(args["boom0"], args["st0"], args["good0"]), (args["boom1"], args["st1"], args["good1"])])
     s = _mk_session(client, b"tok", retry=_retry_cfg(args["has_retry"], args["mr"]))
     try:
         s.exchange(_IN)
     except HarnessModelError:
-        return f"exchange() sent {len(client.posts)} requests"
+        raise
     except Exception:  # noqa: BLE001
         pass
     n = len(client.posts)
-    if n > 2 or (n == 2 and args["st0"] != 413) or client.other:
-        return f"exchange() sent {n} POSTs (first answer {args['st0']}), other verbs {client.other}"
+    first = "a transport failure" if args["boom0"] else args["st0"]
+    if n > 2 or (n == 2 and (args["boom0"] or args["st0"] != 413)):
+        return (f"exchange() sent {n} POSTs to the exchange URL (first answer {first}, second {'a transport failure' if args['boom1'] else args['st1']}, "
+                f"session retry config max_retries={args['mr'] if args['has_retry'] else None}); at most one, or two when the first answer is 413")
     return None
 
 
@@ -854,41 +890,32 @@ def exchange_sent_once_or_twice_after_413(st0: int, st1: int, boom0: bool, boom1
     client = _CountingClient([(boom0, st0, good0), (boom1, st1, good1)])
     s = _mk_session(client, b"tok", retry=_retry_cfg(has_retry, mr))
     try:
-        out = s.exchange(_IN)
-        returned = True
+        s.exchange(_IN)
     except HarnessModelError:
-        return False
+        raise
     except Exception:  # noqa: BLE001
-        out, returned = None, False
+        pass
     n = len(client.posts)
-    if client.other:
-        return False
-    if not (n == 1 or (n == 2 and not boom0 and st0 == 413)):
-        return False
-    # the resend happens iff the first answer was 413, and only after the body went to storage
-    if (not boom0 and st0 == 413) != (n == 2) or s.externalized != (1 if n == 2 else 0):
-        return False
-    for u in client.posts:
-        if u != _URL:
-            return False
-    if returned and out is None:
-        return False
-    return True
+    # at most once; a second request only as the single resend after a 413 answer (whether the resend is made at
+    # all, and what the storage round trip looks like, is not the property's business)
+    return n <= 1 or (n == 2 and not boom0 and st0 == 413)
 
 
 def _replay_cancel(args: dict) -> str | None:
-    client = _CountingClient([(args["boom0"], args["st0"], args["good0"])] + [(False, 200, True)] * 5)
+    client = _CountingClient([(args["boom0"], args["st0"], args["good0"])])
     s = _mk_session(client, b"tok" if args["has_state"] else None, finished=args["finished"], retry=_retry_cfg(args["has_retry"], args["mr"]))
-    try:
-        s.cancel()
-        s.cancel()
-    except Exception as e:  # noqa: BLE001
-        return f"cancel() raised {e!r}"
-    want = 1 if (args["has_state"] and not args["finished"]) else 0
-    if len(client.posts) != want or client.other:
-        return f"cancel() (twice) sent {len(client.posts)} POSTs, expected {want} (first answer: {'transport error' if args['boom0'] else args['st0']}, retry config max_retries={args['mr'] if args['has_retry'] else None})"
-    if not s._finished or s._state_bytes is not None:
-        return "session still live after cancel()"
+    counts = []
+    for _ in range(2):
+        try:
+            s.cancel()
+        except HarnessModelError:
+            raise
+        except Exception:  # noqa: BLE001  (whether a failed cancel is swallowed is not the property's business)
+            pass
+        counts.append(len(client.posts))
+    if counts[0] > 1 or counts[1] > 1:
+        return (f"cancel() sent {counts[0]} POSTs, {counts[1]} after a second cancel(); at most one cancel request per session (first answer: "
+                f"{'transport error' if args['boom0'] else args['st0']}, retry config max_retries={args['mr'] if args['has_retry'] else None})")
     return None
 
 
@@ -901,29 +928,16 @@ def cancel_sent_at_most_once_and_final(has_state: bool, finished: bool, st0: int
     """
     client = _CountingClient([(boom0, st0, good0)])
     s = _mk_session(client, b"tok" if has_state else None, finished=finished, retry=_retry_cfg(has_retry, mr))
-    try:
-        s.cancel()
-    except HarnessModelError:
-        return False
-    except Exception:  # noqa: BLE001
-        return False  # cancel is documented best-effort: failures are swallowed
-    want = 1 if (has_state and not finished) else 0
-    if len(client.posts) != want or client.other or s.externalized:
-        return False
-    if want and client.posts[0] != _URL:
-        return False
-    if not s._finished or s._state_bytes is not None:
-        return False
-    # idempotent, and no exchange can follow
-    try:
-        s.cancel()
-    except Exception:  # noqa: BLE001
-        return False
-    try:
-        s.exchange(_IN)
-        return False
-    except RpcError:
-        pass
-    except Exception:  # noqa: BLE001
-        return False
-    return len(client.posts) == want
+    # "cancel requests are sent at most once": one cancel() posts at most once (whatever the answer, whatever the
+    # session's retry config), and a second cancel() does not post again.  Whether a failing cancel raises, and the
+    # session's private flags, are not the property's business.
+    for _ in range(2):
+        try:
+            s.cancel()
+        except HarnessModelError:
+            raise
+        except Exception:  # noqa: BLE001
+            pass
+        if len(client.posts) > 1:
+            return False
+    return True
